@@ -27,11 +27,38 @@ def malformed(cases_q, cases_t):
 
 PACKED = {"name": "S-packed:decision", Q: ["packed"], T: ["packed"], "seeds_t": 1}
 
+
+def files(cq, ct):
+    return {"name": "S-container:files", Q: ["files", "--cases", str(cq)], T: ["files", "--cases", str(ct), "--size", "30"], "seeds_t": 3}
+
+
+def cuts(cq, ct, sq=6, st=10):
+    return {"name": "S-container:cuts", Q: ["cuts", "--cases", str(cq), "--size", str(sq)], T: ["cuts", "--cases", str(ct), "--size", str(st)], "seeds_t": 2}
+
 PROPS = {
     "C01": {
         "module": "Sfv.Props.C01",
         "tables": ["tables_prim_widths", "tables_option_result_tags", "tables_limits"],
-        "suites": [codec(8, 40)],
+        "suites": [codec(8, 40), files(2, 8)],
         "oracle": ["C01"],
+    },
+    "C02": {
+        "module": "Sfv.Props.C02",
+        "tables": ["tables_prim_widths", "tables_header", "tables_methods_pinned", "tables_option_result_tags",
+                   "tables_error_kinds", "tables_enum_tag_rule", "tables_schema_tags", "tables_limits"],
+        "suites": [codec(8, 40), files(2, 8)],
+        "oracle": ["C02"],
+    },
+    "C06": {
+        "module": "Sfv.Props.C06",
+        "tables": ["tables_limits", "tables_prim_packed"],
+        "suites": [malformed(6, 30), PACKED],
+        "oracle": ["C06"],
+    },
+    "C07": {
+        "module": "Sfv.Props.C07",
+        "tables": ["tables_header"],
+        "suites": [cuts(1, 4)],
+        "oracle": ["C07"],
     },
 }
